@@ -12,6 +12,8 @@ Verdict(ev) ==
     IF ev.panic THEN "panic"
     ELSE IF ev.norm # n THEN "normal-form-differs"
     ELSE IF ev.norm2 # ev.norm THEN "normalisation-not-idempotent"
+    \* a party's identity is normalised by its own regime only, whatever document carries the party
+    ELSE IF ev.host_norm # ev.norm THEN "host-regime-alters-identity"
     ELSE IF n = <<>> THEN "ok"                       \* an empty code is not a candidate (presence is another rule)
     ELSE IF ev.ok /\ ~Valid(ev.cc, n) THEN "accepts-invalid"
     ELSE IF ~ev.ok /\ Valid(ev.cc, n) THEN "rejects-valid"
